@@ -919,6 +919,14 @@ def gen_tables(repo):
                     and rev is None
                 )
                 keys.append((m, "len_path" if ok else "other"))
+    tt_src = ast.unparse(find_method(sch, "to_tree"))
+    L.append("/-- `to_tree`: a key stays required once an always-applicable `required_keys` names it (`.get('required', False) or …`) -/")
+    sticky = "items[path_i_str].get('required', False) or key_cnd.callable.name == 'required_keys'" in tt_src
+    L.append(f"def treeRequiredSticky : Bool := {'true' if sticky else 'false'}")
+    L.append("/-- `to_tree`: the implicit parent type is only looked up for map / list parts -/")
+    L.append(f"def treeImplicitTypeGuard : Bool := {'true' if 'par_implicit_type in IMP_TYPE_LOOKUP' in tt_src else 'false'}")
+    L.append("/-- `to_tree`: the sub-tree root is compared through the string forms of its *parts* -/")
+    L.append(f"def treeFromPathViaParts : Bool := {'true' if 'tuple((str(i) for i in DataPath(*from_path).parts))' in tt_src else 'false'}")
     vd = find_class(stree, "ValidatedData")
     vd_src = ast.unparse(find_method(vd, "__init__"))
     rt_src = ast.unparse(rt)
